@@ -278,7 +278,7 @@ func genSeg(r *rand.Rand, helloLen int) devsim.Seg {
 // GenDesc draws one case for the given table cell.
 // lzForms are zero-padded (non-canonical but legal xs:unsignedInt / YANG uint32) lexical forms of
 // a session-id; their value is the decimal reading.
-var lzForms = []string{"01", "007", "010", "0042", "08", "0099", "0000000019", "00004294967295", "09", "0777", "00", "000"}
+var lzForms = []string{"01", "007", "010", "0042", "08", "0099", "0000000019", "00004294967295", "09", "0777"}
 
 // GenDesc draws one case for the given table cell. lz >= 0 makes the session-id a zero-padded
 // lexical form (lz selects it); lz < 0 draws a canonical one (or none).
